@@ -315,6 +315,373 @@ def expand_suppress(tree, ref):
     return total
 
 
+def split_tuple_bindings(tree, ref):
+    """`a, b = x, y` over local names -> one binding each (when no element reads an earlier target): the canonical spelling"""
+    total = 0
+    for q, fn in functions(tree):
+        for block in _blocks(fn):
+            if any(isinstance(st, ast.Assign) and len(st.targets) == 1 and isinstance(st.targets[0], ast.Tuple) and isinstance(st.value, ast.Tuple) for st in block):
+                new = _untuple(list(block))
+                if len(new) != len(block):
+                    total += len(new) - len(block)
+                    block[:] = new
+    return total
+
+
+def default_new_params(tree, ref):
+    """A parameter the reference does not have, with an immutable literal default, that no call in the module passes: inside the
+    function it *is* its default (every caller the reference knows still calls without it).  Read-only parameters are replaced by the
+    literal; a parameter the body re-binds becomes a leading assignment of the default."""
+    known = ref.get('params')
+    if known is None:
+        return 0
+    fl = functions(tree)
+    calls = [n for n in ast.walk(tree) if isinstance(n, ast.Call)]
+    total = 0
+    for q, fn in fl:
+        if q not in known or '.<locals>.' in q:
+            continue
+        a = fn.args
+        if a.vararg or a.kwarg:
+            continue
+        old = known[q]
+        pos = a.posonlyargs + a.args
+        defaults = dict(zip([x.arg for x in reversed(pos)], reversed(a.defaults)))
+        defaults.update({x.arg: d for x, d in zip(a.kwonlyargs, a.kw_defaults) if d is not None})
+        new = [x.arg for x in pos + a.kwonlyargs if x.arg not in old and x.arg in defaults]
+        if not new or [x.arg for x in pos + a.kwonlyargs if x.arg in old] != [o for o in old if o in {y.arg for y in pos + a.kwonlyargs}]:
+            continue
+        # new positional parameters must come after all the old ones (an old call binds the same way)
+        names_pos = [x.arg for x in pos]
+        if any(names_pos.index(n_) < max([names_pos.index(o) for o in old if o in names_pos] or [-1]) for n_ in new if n_ in names_pos):
+            continue
+        first_new = min([names_pos.index(n_) for n_ in new if n_ in names_pos] or [len(names_pos)])
+        is_method = '.' in q and names_pos[:1] in (['self'], ['cls'])
+        max_pos = first_new - (1 if is_method else 0)
+        passed = set()
+        for c in calls:
+            f_ = c.func
+            nm = f_.attr if isinstance(f_, ast.Attribute) else f_.id if isinstance(f_, ast.Name) else None
+            if nm != fn.name and not (fn.name == '__init__' and nm == q.split('.')[-2]):
+                continue
+            if any(isinstance(x, ast.Starred) for x in c.args) or any(k.arg is None for k in c.keywords):
+                passed.update(new)
+            npos = len(c.args) - (1 if (isinstance(f_, ast.Attribute) and isinstance(f_.value, ast.Name) and f_.value.id[:1].isupper() and is_method
+                                        and fn.name != '__init__' and not (fn.name == '__init__')) else 0)
+            if npos > max_pos:
+                passed.update(new)
+            for k in c.keywords:
+                if k.arg in new:
+                    try:
+                        same = isinstance(k.value, ast.Constant) and k.value.value == _literal(defaults[k.arg], {}) and type(k.value.value) is type(_literal(defaults[k.arg], {}))
+                    except ValueError:
+                        same = False
+                    if not same:
+                        passed.add(k.arg)           # (a keyword that spells out the default passes nothing new)
+        stored = _stores(fn.body)
+        lead = []
+        for p_ in new:
+            if p_ in passed:
+                continue
+            d = defaults[p_]
+            try:
+                if not isinstance(_literal(d, {}), (int, float, str, bytes, tuple, type(None), bool)):
+                    continue
+            except ValueError:
+                continue
+            if any(isinstance(n, (ast.Global, ast.Nonlocal)) for n in ast.walk(fn)):
+                continue
+            if p_ in stored:
+                lead.append(ast.copy_location(ast.Assign(targets=[ast.Name(id=p_, ctx=ast.Store())], value=copy.deepcopy(d), lineno=fn.lineno), fn.body[0]))
+                lead[-1]._from_default = True
+            else:
+                s_ = _Subst({p_: d})
+                fn.body = [s_.visit(x) for x in fn.body]
+            # drop the parameter
+            if any(x.arg == p_ for x in a.kwonlyargs):
+                i_ = [x.arg for x in a.kwonlyargs].index(p_)
+                del a.kwonlyargs[i_]
+                del a.kw_defaults[i_]
+            else:
+                i_ = names_pos.index(p_)
+                di = i_ - (len(pos) - len(a.defaults))
+                (a.args if i_ >= len(a.posonlyargs) else a.posonlyargs).remove(pos[i_])
+                del a.defaults[di]
+                pos = a.posonlyargs + a.args
+                names_pos = [x.arg for x in pos]
+            total += 1
+            for c in calls:
+                f_ = c.func
+                nm = f_.attr if isinstance(f_, ast.Attribute) else f_.id if isinstance(f_, ast.Name) else None
+                if nm == fn.name or (fn.name == '__init__' and nm == q.split('.')[-2]):
+                    c.keywords = [k for k in c.keywords if k.arg != p_]
+        if lead:
+            at = 1 if _has_doc(fn.body) else 0
+            fn.body[at:at] = lead
+    return total
+
+
+def inline_init_literals(tree, ref):
+    """self._x = <literal> stored once, in __init__, under a name the reference class does not have, and never stored elsewhere:
+    reads of self._x are the literal (an instance-level spelling of a named constant)"""
+    total = 0
+    for q, c in classes(tree):
+        want = ref.get('attrs', {}).get(q)
+        if want is None:
+            continue
+        init = [st for st in c.body if isinstance(st, ast.FunctionDef) and st.name == '__init__']
+        if not init:
+            continue
+        cand = {}
+        for st in init[0].body:
+            if isinstance(st, ast.Assign) and len(st.targets) == 1 and isinstance(st.targets[0], ast.Attribute) and isinstance(st.targets[0].value, ast.Name) and \
+                    st.targets[0].value.id == 'self' and st.targets[0].attr not in want and st.targets[0].attr.startswith('_'):
+                try:
+                    v = _literal(st.value, {})
+                except ValueError:
+                    continue
+                if isinstance(v, (int, float, str, bytes, tuple)) and not isinstance(v, bool):
+                    cand[st.targets[0].attr] = st
+        if not cand:
+            continue
+        for n in ast.walk(tree):
+            if isinstance(n, ast.Attribute) and n.attr in cand and isinstance(n.ctx, (ast.Store, ast.Del)) and n is not cand[n.attr].targets[0]:
+                cand.pop(n.attr)
+            elif isinstance(n, ast.Call) and _txt(n.func) in ('setattr', 'delattr'):
+                cand.clear()
+                break
+        # other classes of the module that store an attribute of the same name may be subclasses: leave those alone
+        if not cand:
+            continue
+
+        class A(ast.NodeTransformer):
+            def visit_Attribute(self, node):
+                self.generic_visit(node)
+                if isinstance(node.ctx, ast.Load) and node.attr in cand and isinstance(node.value, ast.Name) and node.value.id == 'self':
+                    return _const_node(_literal(cand[node.attr].value, {}), node)
+                return node
+        for st in c.body:
+            if isinstance(st, ast.FunctionDef):
+                st.body = [A().visit(x) for x in st.body]
+        for nm, st in cand.items():
+            if st in init[0].body:
+                init[0].body.remove(st)
+        if not init[0].body:
+            init[0].body.append(ast.Pass())
+        total += len(cand)
+    if total:
+        _FoldInlined().visit(tree)
+    return total
+
+
+def _harmless(e):
+    for n in ast.walk(e):
+        if isinstance(n, ast.Call):
+            t = _txt(n.func)
+            if t in PURE_FUNCS or t in ('time.time', 'time.monotonic', 'time.perf_counter', 'dict', 'collections.Counter', 'Counter') or \
+                    (isinstance(n.func, ast.Attribute) and n.func.attr in PURE_METHODS | {'qsize', 'empty', 'full', 'is_set', 'is_alive', 'locked', 'total_seconds'}):
+                continue
+            return False
+        if isinstance(n, (ast.Await, ast.Yield, ast.YieldFrom, ast.NamedExpr)):
+            return False
+    return True
+
+
+def _read_only_body(fn):
+    """no store to an attribute or item, no call that is not pure: running it changes nothing"""
+    for n in ast.walk(fn):
+        if isinstance(n, (ast.Attribute, ast.Subscript)) and isinstance(n.ctx, (ast.Store, ast.Del)):
+            return False
+        if isinstance(n, ast.Call) and not _harmless(n):
+            return False
+        if isinstance(n, (ast.Global, ast.Nonlocal)):
+            return False
+    return True
+
+
+def drop_observability(tree, ref):
+    """Attributes the reference class does not have and that nothing but logging, their own update and new read-only accessors ever
+    reads (counters, timestamps, statistics): the statements that maintain them have no bearing on any existing behaviour and are
+    removed.  An attribute that any reference function reads outside a logging call is left alone (it may be a cache or a flag)."""
+    from .astutil import is_noise
+    known_funcs = set(ref.get('funcs', []))
+    total = 0
+    parents = {}
+    for p_ in ast.walk(tree):
+        for ch in ast.iter_child_nodes(p_):
+            parents[ch] = p_
+
+    def stmt_of(n):
+        while n in parents and not isinstance(n, ast.stmt):
+            n = parents[n]
+        return n
+
+    def func_of(n):
+        n = parents.get(n)
+        while n is not None and not isinstance(n, (ast.FunctionDef, ast.AsyncFunctionDef)):
+            n = parents.get(n)
+        return n
+    qual = {id(fn): q for q, fn in functions(tree)}
+
+    harmless = _harmless
+
+    def observer(fn):
+        # a new accessor (property, __repr__, getter): running it changes nothing
+        return qual.get(id(fn)) not in known_funcs and _read_only_body(fn)
+    for q, c in classes(tree):
+        want = ref.get('attrs', {}).get(q)
+        if want is None:
+            continue
+        new_attrs = [a for a in class_attr_order(c) if a not in want and a.startswith('_')]
+        # (sub-)classes defined in the module may share instances: an attribute name any other class also stores is left alone
+        for a in new_attrs:
+            occ = [n for n in ast.walk(tree) if isinstance(n, ast.Attribute) and n.attr == a]
+            if any(not (isinstance(n.value, ast.Name) and n.value.id == 'self') for n in occ):
+                continue
+            stores = [n for n in occ if isinstance(n.ctx, (ast.Store, ast.Del))]
+            loads = [n for n in occ if isinstance(n.ctx, ast.Load)]
+            store_stmts = []
+            ok = True
+            for n in stores:
+                st = stmt_of(n)
+                tg = st.targets if isinstance(st, ast.Assign) else [st.target] if isinstance(st, (ast.AugAssign, ast.AnnAssign)) else None
+                if tg is None or len(tg) != 1 or tg[0] is not n and not (isinstance(tg[0], ast.Subscript) and tg[0].value is n):
+                    ok = False
+                    break
+                if getattr(st, 'value', None) is not None and not harmless(st.value):
+                    ok = False
+                    break
+                store_stmts.append(st)
+            if not ok:
+                continue
+            # item stores  self._stats[k] += 1  read the attribute: they are part of its own upkeep
+            upkeep = {id(x) for x in store_stmts}
+            for n in [x for x in loads]:
+                st = stmt_of(n)
+                if isinstance(st, (ast.Assign, ast.AugAssign)) and isinstance((st.targets[0] if isinstance(st, ast.Assign) else st.target), ast.Subscript) and \
+                        (st.targets[0] if isinstance(st, ast.Assign) else st.target).value is n and harmless(st.value):
+                    store_stmts.append(st)
+                    upkeep.add(id(st))
+            for n in loads:
+                st = stmt_of(n)
+                fn = func_of(n)
+                if id(st) in upkeep or is_noise(st) or (fn is not None and observer(fn)):
+                    continue
+                ok = False
+                break
+            if not ok:
+                continue
+            for st in store_stmts:
+                par = parents.get(st)
+                for f_ in ('body', 'orelse', 'finalbody'):
+                    b = getattr(par, f_, None)
+                    if isinstance(b, list) and st in b:
+                        b.remove(st)
+                        if not b and f_ == 'body':
+                            b.append(ast.copy_location(ast.Pass(), st))
+            total += 1
+    return total
+
+
+def _const_truth(e):
+    """True / False when the test is decided by literals alone, else None"""
+    if isinstance(e, ast.Constant):
+        return bool(e.value)
+    if isinstance(e, ast.UnaryOp) and isinstance(e.op, ast.Not):
+        v = _const_truth(e.operand)
+        return None if v is None else not v
+    if isinstance(e, ast.Compare) and len(e.ops) == 1 and isinstance(e.left, ast.Constant) and isinstance(e.comparators[0], ast.Constant):
+        a, b, op = e.left.value, e.comparators[0].value, e.ops[0]
+        if isinstance(op, ast.Is):
+            return (a is b) if (a is None or b is None or isinstance(a, bool) or isinstance(b, bool)) else None
+        if isinstance(op, ast.IsNot):
+            return (a is not b) if (a is None or b is None or isinstance(a, bool) or isinstance(b, bool)) else None
+        try:
+            if isinstance(op, ast.Eq):
+                return a == b
+            if isinstance(op, ast.NotEq):
+                return a != b
+        except Exception:
+            return None
+    if isinstance(e, ast.BoolOp):
+        vs = [_const_truth(v) for v in e.values]
+        if any(v is None for v in vs):
+            return None
+        return all(vs) if isinstance(e.op, ast.And) else any(vs)
+    return None
+
+
+def fold_decided_branches(tree, ref):
+    """`if None is None: A else: B` (left behind when a parameter was replaced by its default) -> A"""
+    total = 0
+    for q, fn in functions(tree):
+        for _ in range(4):
+            changed = False
+            for block in _blocks(fn):
+                for i, st in enumerate(block):
+                    nxt = block[i + 1] if i + 1 < len(block) else None
+                    if isinstance(st, ast.Assign) and len(st.targets) == 1 and isinstance(st.targets[0], ast.Name) and isinstance(st.value, ast.Constant) and nxt is not None:
+                        nm = st.targets[0].id
+                        # name = <literal> directly followed by a test of that name alone: the test is decided
+                        if isinstance(nxt, ast.If) and {x.id for x in ast.walk(nxt.test) if isinstance(x, ast.Name)} == {nm} and \
+                                not any(isinstance(x, (ast.Call, ast.Attribute, ast.Subscript)) for x in ast.walk(nxt.test)):
+                            t2 = _Subst({nm: st.value}).visit(copy.deepcopy(nxt.test))
+                            if _const_truth(t2) is not None:
+                                nxt.test = t2
+                                changed = True
+                                break
+                        # name = <literal> directly followed by another plain binding of the name that does not read it: dead store
+                        if isinstance(nxt, ast.Assign) and len(nxt.targets) == 1 and isinstance(nxt.targets[0], ast.Name) and nxt.targets[0].id == nm and \
+                                not any(isinstance(x, ast.Name) and x.id == nm for x in ast.walk(nxt.value)) and \
+                                not any(isinstance(x, (ast.Lambda, ast.FunctionDef)) for x in ast.walk(nxt.value)) and getattr(st, '_from_default', False):
+                            del block[i]
+                            changed = True
+                            total += 1
+                            break
+                    if isinstance(st, ast.If):
+                        v = _const_truth(st.test)
+                        if v is None:
+                            continue
+                        block[i:i + 1] = (st.body if v else st.orelse) or [ast.copy_location(ast.Pass(), st)]
+                        changed = True
+                        total += 1
+                        break
+                    if isinstance(st, (ast.Assign, ast.Return)) and isinstance(getattr(st, 'value', None), ast.IfExp) and _const_truth(st.value.test) is not None:
+                        st.value = st.value.body if _const_truth(st.value.test) else st.value.orelse
+                        changed = True
+                        total += 1
+                if changed:
+                    break
+            if not changed:
+                break
+    return total
+
+
+def drop_trivia(tree, ref):
+    """`else: pass`, a `pass` next to other statements, and a final `return None` the reference function does not end with: spelled-out
+    versions of what happens anyway"""
+    ends = ref.get('ends_with_return')
+    total = 0
+    for q, fn in functions(tree):
+        for node in _own_walk(fn):
+            for f_ in ('orelse', 'finalbody'):
+                b = getattr(node, f_, None)
+                if isinstance(b, list) and b and all(isinstance(x, ast.Pass) for x in b) and not (isinstance(node, (ast.For, ast.While)) and False):
+                    setattr(node, f_, [])
+                    total += 1
+        for block in _blocks(fn):
+            if len(block) > 1 and any(isinstance(x, ast.Pass) for x in block):
+                keep = [x for x in block if not isinstance(x, ast.Pass)]
+                if keep:
+                    total += len(block) - len(keep)
+                    block[:] = keep
+        if ends is not None and q not in ends and len(fn.body) > 1 and isinstance(fn.body[-1], ast.Return) and \
+                (fn.body[-1].value is None or (isinstance(fn.body[-1].value, ast.Constant) and fn.body[-1].value.value is None)):
+            del fn.body[-1]
+            total += 1
+    return total
+
+
 def restore_self(tree, ref):
     """A method the reference wrote with `self` that was made a @staticmethod (it never used self) gets its first parameter back;
     `Class.m(..)` calls from methods of the class become `self.m(..)`.  Which object the function is looked up on does not change what
@@ -448,6 +815,7 @@ def import_shape(tree):
 def shape_of(tree):
     return {
         'arity': {q: len(f.args.args) + len(f.args.kwonlyargs) for q, f in functions(tree)},
+        'params': {q: [a.arg for a in f.args.posonlyargs + f.args.args + f.args.kwonlyargs] for q, f in functions(tree)},
         'from_imports': import_shape(tree)[0], 'imports': import_shape(tree)[1],
         'loops': {q: loop_texts(f) for q, f in functions(tree) if loop_texts(f)},
         'comps': {q: comp_texts(f) for q, f in functions(tree) if comp_texts(f)},
@@ -458,6 +826,7 @@ def shape_of(tree):
         'ifexps': {q: ifexp_texts(f) for q, f in functions(tree) if ifexp_texts(f)},
         'fmt': {q: fmt_shape(f) for q, f in functions(tree) if fmt_shape(f)},
         'decos': {q: [_txt(d) for d in f.decorator_list] for q, f in functions(tree) if f.decorator_list},
+        'ends_with_return': sorted(q for q, f in functions(tree) if f.body and isinstance(f.body[-1], ast.Return)),
         'bool_returns': {q: _bool_returns(f) for q, f in functions(tree) if _bool_returns(f)},
     }
 
@@ -689,8 +1058,8 @@ def inline_constants(tree, ref):
             if m:
                 sub = _Subst(m)
                 fn.body = [sub.visit(s) for s in fn.body]
-                for d in fn.args.defaults + [x for x in fn.args.kw_defaults if x is not None]:
-                    sub.visit(d)
+                fn.args.defaults = [sub.visit(d) for d in fn.args.defaults]
+                fn.args.kw_defaults = [sub.visit(d) if d is not None else None for d in fn.args.kw_defaults]
         # class bodies (class-level expressions using the module constant)
         for q, c in classes(tree):
             sub = _Subst({k: _const_node(v, c) for k, v in env.items()})
@@ -735,6 +1104,12 @@ def inline_constants(tree, ref):
         a = A()
         for i, st in enumerate(tree.body):
             tree.body[i] = a.visit(st)
+        # default values of the methods are evaluated in the class body: a bare NAME there is the class constant
+        dsub = _Subst({k: _const_node(v, c) for k, v in cenv.items()})
+        for st in c.body:
+            if isinstance(st, (ast.FunctionDef, ast.AsyncFunctionDef)):
+                st.args.defaults = [dsub.visit(d) for d in st.args.defaults]
+                st.args.kw_defaults = [dsub.visit(d) if d is not None else None for d in st.args.kw_defaults]
         n += len(cenv)
     return n
 
@@ -890,15 +1265,22 @@ def _simple_arg(a):
 def _bind(helper, call, skip_first):
     """-> (substitution map, leading assignments) or None"""
     a = helper.args
-    if a.vararg or a.kwarg or a.posonlyargs or a.kwonlyargs:
+    if a.kwarg or a.posonlyargs or a.kwonlyargs:
         return None
     if any(isinstance(x, ast.Starred) for x in call.args) or any(k.arg is None for k in call.keywords):
         return None
     params = [p.arg for p in a.args][1 if skip_first else 0:]
     defaults = dict(zip(reversed(params), reversed(a.defaults)))
+    extra = None
     if len(call.args) > len(params):
-        return None
-    given = dict(zip(params, call.args))
+        if not a.vararg:
+            return None
+    if a.vararg:
+        # *args receives the surplus positional arguments as a tuple (read-only use only)
+        if a.vararg.arg in _stores(helper.body) or not all(isinstance(x, (ast.Name, ast.Constant)) for x in call.args[len(params):]):
+            return None
+        extra = (a.vararg.arg, ast.Tuple(elts=list(call.args[len(params):]), ctx=ast.Load()))
+    given = dict(zip(params, call.args[:len(params)]))
     for k in call.keywords:
         if k.arg not in params or k.arg in given:
             return None
@@ -934,6 +1316,8 @@ def _bind(helper, call, skip_first):
             sub[p] = v
         else:
             lead.append(ast.copy_location(ast.Assign(targets=[ast.Name(id=p, ctx=ast.Store())], value=copy.deepcopy(v), lineno=call.lineno), call))
+    if extra is not None:
+        sub[extra[0]] = extra[1]
     return sub, lead
 
 
@@ -995,6 +1379,29 @@ def _has_doc(stmts):
     return bool(stmts) and isinstance(stmts[0], ast.Expr) and isinstance(stmts[0].value, ast.Constant) and isinstance(stmts[0].value.value, str)
 
 
+class _JoinTuples(ast.NodeTransformer):
+    """(a,) + (b, c) -> (a, b, c): tuple displays written next to each other after a *args parameter was filled in"""
+
+    def visit_BinOp(self, n):
+        self.generic_visit(n)
+        if isinstance(n.op, ast.Add) and isinstance(n.left, ast.Tuple) and isinstance(n.right, ast.Tuple) and \
+                not any(isinstance(e, ast.Starred) for e in n.left.elts + n.right.elts):
+            return ast.copy_location(ast.Tuple(elts=n.left.elts + n.right.elts, ctx=ast.Load()), n)
+        return n
+
+    def visit_Call(self, n):
+        self.generic_visit(n)
+        # f(*(...literal tuple...)) -> f(...)
+        new = []
+        for a_ in n.args:
+            if isinstance(a_, ast.Starred) and isinstance(a_.value, ast.Tuple):
+                new.extend(a_.value.elts)
+            else:
+                new.append(a_)
+        n.args = new
+        return n
+
+
 def _expand_call(stmt, call, helper, skip_first, caller_names=frozenset()):
     """statements replacing ``stmt`` when ``call`` (inside it) is expanded with the body of ``helper``; None if this site cannot be expanded"""
     b = _bind(helper, call, skip_first)
@@ -1021,6 +1428,8 @@ def _expand_call(stmt, call, helper, skip_first, caller_names=frozenset()):
     if sub:
         s_ = _Subst(sub)
         body = [s_.visit(x) for x in body]
+        if helper.args.vararg:
+            body = [_JoinTuples().visit(x) for x in body]
     if any(isinstance(n, (ast.Yield, ast.YieldFrom, ast.Await)) for x in body for n in _own_walk(x)):
         return None
     body = _structure_returns(body)              # guard clauses `if c: ...; return x` + rest  ->  if/else with the returns in tail position
@@ -1325,6 +1734,9 @@ def inline_helpers(tree, ref):
                                     break
                             if hit is None:
                                 continue
+                            from .astutil import is_noise as _is_noise
+                            if _is_noise(st) and _read_only_body(helper):
+                                continue            # a read-only helper used inside a logging statement stays part of that statement
                             rep = _expand_call(st, hit, helper, skip_first=(cls_q is not None and not is_static), caller_names=cn)
                             if rep is None:
                                 continue
@@ -1339,7 +1751,7 @@ def inline_helpers(tree, ref):
         # drop helpers that are no longer referenced
         for q, (helper, _, _) in new.items():
             refs = [n for n in ast.walk(tree) if (isinstance(n, ast.Attribute) and n.attr == helper.name) or (isinstance(n, ast.Name) and n.id == helper.name)]
-            if not refs:
+            if not refs and helper.name.startswith('_'):          # a public function may be used from another module
                 for parent in ast.walk(tree):
                     for f in ('body', 'orelse'):
                         b = getattr(parent, f, None)
@@ -1389,6 +1801,25 @@ def _receiver_ok(call, cls_q, is_static, is_cls):
 
 
 # ---------------------------------------------------------------------------------------------- 4. explaining variables
+FRESH_OBJECT_CALLS = {'list', 'bytearray', 'dict', 'set', 'enumerate', 'zip', 'reversed', 'map', 'filter', 'iter', 'sorted', 'np.array', 'np.zeros', 'np.ones',
+                      'array.array', 'copy.copy', 'copy.deepcopy', 'collections.deque', 'deque', 'Queue', 'queue.Queue'}
+
+
+def _creates_object(e):
+    """the value is a new mutable or one-shot object (identity matters when it is used more than once)"""
+    if isinstance(e, (ast.List, ast.Dict, ast.Set, ast.ListComp, ast.DictComp, ast.SetComp, ast.GeneratorExp)):
+        return True
+    if isinstance(e, ast.Call):
+        t = _txt(e.func)
+        return t in FRESH_OBJECT_CALLS or (isinstance(e.func, ast.Attribute) and e.func.attr in ('copy', 'keys', 'values', 'items')) or t[:1].isupper() or \
+            (isinstance(e.func, ast.Attribute) and e.func.attr[:1].isupper())
+    if isinstance(e, ast.IfExp):
+        return _creates_object(e.body) or _creates_object(e.orelse)
+    if isinstance(e, ast.BoolOp):
+        return any(_creates_object(v) for v in e.values)
+    return False
+
+
 def _pure(expr, allow_self):
     for n in ast.walk(expr):
         if isinstance(n, ast.Call):
@@ -1441,6 +1872,8 @@ def inline_temps(tree, path, ref_locals):
                 if not uses:
                     continue
                 reads_self = any(isinstance(n, ast.Attribute) and isinstance(n.value, ast.Name) and n.value.id == 'self' for n in ast.walk(st.value))
+                if len(uses) > 1 and _creates_object(st.value):
+                    continue            # two uses of one list / iterator / array are two views of ONE object: writing the expression twice makes two
                 if not _pure(st.value, allow_self=True):
                     # a value with calls may only move into the statement that directly follows its definition, and only once
                     nxt = block[i + 1] if i + 1 < len(block) else None
@@ -1463,6 +1896,10 @@ def inline_temps(tree, path, ref_locals):
                 if not use_idx:
                     continue
                 between = block[i + 1:max(use_idx) + 1]
+                last = block[max(use_idx)]
+                if isinstance(last, (ast.If, ast.For)) and all(any(u is x for root in _stmt_exprs(last) for x in ast.walk(root)) or not any(u is x for x in ast.walk(last)) for u in uses):
+                    # used in the test of an `if` / the iterable of a `for` only: evaluated once, before anything the statement's body binds
+                    between = block[i + 1:max(use_idx)] + [ast.Expr(value=r) for r in _stmt_exprs(last)]
                 if any(isinstance(n, ast.Name) and isinstance(n.ctx, (ast.Store, ast.Del)) and n.id in reads for s_ in between for n in ast.walk(s_)):
                     continue
                 # a value that reads object state (attributes, items) must not move across a statement that may change that state
@@ -1768,9 +2205,10 @@ def normalise(tree, path, ref_locals):
         return {}
     out = {}
     for name, fn in (('annotations', lambda: strip_annotations(tree, ref)), ('imports', lambda: normalise_imports(tree, ref)), ('attributes', lambda: rename_attributes(tree, ref)),
-                     ('methods', lambda: rename_methods(tree, ref)), ('formats', lambda: restyle_formats(tree, ref)), ('closures', lambda: restore_closures(tree, ref)), ('self', lambda: restore_self(tree, ref)), ('suppress', lambda: expand_suppress(tree, ref)), ('constants', lambda: _constants(tree, ref)),
+                     ('methods', lambda: rename_methods(tree, ref)), ('formats', lambda: restyle_formats(tree, ref)), ('closures', lambda: restore_closures(tree, ref)), ('self', lambda: restore_self(tree, ref)), ('tuples', lambda: split_tuple_bindings(tree, ref)), ('suppress', lambda: expand_suppress(tree, ref)), ('constants', lambda: _constants(tree, ref)),
+                     ('observability', lambda: drop_observability(tree, ref)), ('params', lambda: default_new_params(tree, ref) + default_new_params(tree, ref)), ('initliterals', lambda: inline_init_literals(tree, ref)),
                      ('structs', lambda: inline_struct_objects(tree, ref)),
-                     ('helpers', lambda: inline_helpers(tree, ref)), ('ifexps', lambda: expand_ifexps(tree, ref)), ('boolreturns', lambda: expand_bool_returns(tree, ref)),
+                     ('helpers', lambda: inline_helpers(tree, ref)), ('decided', lambda: fold_decided_branches(tree, ref)), ('trivia', lambda: drop_trivia(tree, ref)), ('ifexps', lambda: expand_ifexps(tree, ref)), ('boolreturns', lambda: expand_bool_returns(tree, ref)),
                      ('unrolled', lambda: unroll_loops(tree, ref)),
                      ('comprehensions', lambda: expand_comprehensions(tree, ref)),
                      ('temps', lambda: inline_temps(tree, path, ref_locals or {}))):
